@@ -268,7 +268,7 @@ def long_suffix_jobs(rng, tier, names):
                 n = max(n, gen.CATALOGUE[nm]["minN"])
                 e = mk(nm, ECHO, gen.gen_params(rng, nm, 7, n=n))
                 K = c03_K(nm, n)
-            L = L0 + rng.randint(0, 2 * n + 3)
+            L = L0 + n + rng.randint(0, 2 * n + 3)   # at least 2^k + 4 evictions / updates past a full window
             period = rng.choice([11, 37, 350])
             pos = nm in ("roc", "cog")
             base = [F(rng.randint(1, 128) if pos else rng.randint(-64, 64), 8) for _ in range(period)]
